@@ -269,7 +269,7 @@ def rule_single_toml(ck: Check, repo: Repo) -> None:
     it = ast.unparse(lp.iter)
     first_match = (len(lp.body) == 1 and isinstance(lp.body[0], ast.If) and isinstance(lp.body[0].body[-1], ast.Return)
                    and ast.unparse(lp.body[0].body[-1].value) == ast.unparse(lp.target)
-                   and ast.unparse(lp.body[0].test) == f"{ast.unparse(lp.target)}.matches(path)")
+                   and re.fullmatch(rf"{re.escape(ast.unparse(lp.target))}\.matches\(\w+\)", ast.unparse(lp.body[0].test)) is not None)
     r.instance("selection", {"iter": it, "returns_first_match": first_match})
     if not first_match:
         r.violation(q, "selection loop shape", "must return the first element of the iteration that matches", repo.loc(lp))
@@ -313,17 +313,26 @@ def check_depth_sort(ck: Check, repo: Repo, r) -> None:
     bind = frag(src, "for toml in self.reuse_tomls: if PurePath(path).is_relative_to(toml.directory): found.append(toml)",
                 ["toml", "path", "found"])
     filt = bind is not None
+    filt_loop = filt
+    comp_node = None
     acc = bind["found"] if bind else "found"
     if not filt:
         # the same filter written as a comprehension: acc = [t for t in self.reuse_tomls if P.is_relative_to(t.directory)]
         from ..rules import single_assign_value
         p0 = fn.args.args[1].arg if len(fn.args.args) > 1 else "path"
-        for st in fn.body:
-            if isinstance(st, (ast.Assign, ast.AnnAssign)) and isinstance(st.value, ast.ListComp) and len(st.value.generators) == 1:
-                g = st.value.generators[0]
-                tgt = st.targets[0] if isinstance(st, ast.Assign) else st.target
-                if not (isinstance(g.target, ast.Name) and isinstance(tgt, ast.Name) and ast.unparse(g.iter) == "self.reuse_tomls"
-                        and ast.unparse(st.value.elt) == g.target.id and len(g.ifs) == 1):
+        comp_node = None
+        holders = [(st.value, st.targets[0] if isinstance(st, ast.Assign) else st.target) for st in fn.body
+                   if isinstance(st, (ast.Assign, ast.AnnAssign)) and isinstance(st.value, ast.ListComp)]
+        # ... or handed to sorted() directly (a list comprehension or a generator)
+        holders += [(c.args[0], None) for c in ast.walk(fn) if isinstance(c, ast.Call) and ast.unparse(c.func) == "sorted" and c.args
+                    and isinstance(c.args[0], (ast.ListComp, ast.GeneratorExp))]
+        # ... or returned as it is
+        holders += [(st.value, None) for st in ast.walk(fn) if isinstance(st, ast.Return) and isinstance(st.value, (ast.ListComp, ast.GeneratorExp))]
+        for comp, tgt in holders:
+            if len(comp.generators) == 1:
+                g = comp.generators[0]
+                if not (isinstance(g.target, ast.Name) and (tgt is None or isinstance(tgt, ast.Name)) and ast.unparse(g.iter) == "self.reuse_tomls"
+                        and ast.unparse(comp.elt) == g.target.id and len(g.ifs) == 1):
                     continue
                 c = g.ifs[0]
                 if isinstance(c, ast.Call) and isinstance(c.func, ast.Attribute) and c.func.attr == "is_relative_to" and len(c.args) == 1 \
@@ -333,7 +342,10 @@ def check_depth_sort(ck: Check, repo: Repo, r) -> None:
                         recv = single_assign_value(fn, recv.id) or recv
                     if ast.unparse(recv) in (p0, f"PurePath({p0})", f"Path({p0})"):
                         filt = True
-                        acc = tgt.id
+                        if tgt is not None:
+                            acc = tgt.id
+                        else:
+                            comp_node = comp
     def depth_key(call: ast.Call) -> bool:
         """key=lambda t: t.directory.parts (or its length): orders by depth of the REUSE.toml's directory."""
         key = next((kw.value for kw in call.keywords if kw.arg == "key"), None)
@@ -352,11 +364,20 @@ def check_depth_sort(ck: Check, repo: Repo, r) -> None:
     ret = [_pos[id(s)] for s in _stmts if isinstance(s, ast.Return)][-1:]
     _ret_nodes = [s for s in _stmts if isinstance(s, ast.Return)]
     _rv = _ret_nodes[-1].value if _ret_nodes else None
-    ret_sorted = isinstance(_rv, ast.Call) and ast.unparse(_rv.func) == "sorted" \
-        and ast.unparse(_rv.args[0]) == acc and depth_key(_rv)
+    ret_sorted = isinstance(_rv, ast.Call) and ast.unparse(_rv.func) == "sorted" and bool(_rv.args) \
+        and (ast.unparse(_rv.args[0]) == acc or (not filt_loop and _rv.args[0] is comp_node)) and depth_key(_rv) \
+        and not any(kw.arg == "reverse" for kw in _rv.keywords)
     stmt_sorted = any(depth_key(c) and not any(kw.arg == "reverse" for kw in c.keywords) and ret and i < ret[0] for i, c in sorts)
     keys = [ast.unparse(kw.value) for _, c in sorts for kw in c.keywords if kw.arg == "key"]
     r.instance("relevant-tomls", {"filter": filt, "sort_keys": keys, "sorted_by_depth": stmt_sorted or ret_sorted})
+    all_sorts = [c for c in ast.walk(fn) if isinstance(c, ast.Call) and (ast.unparse(c.func) == "sorted" or (
+        isinstance(c.func, ast.Attribute) and c.func.attr == "sort"))]
+    if not filt and "is_relative_to" in src:
+        raise AnalysisError("_find_relevant_tomls: the ancestor filter is there but written in a shape this rule does not enumerate")
+    if filt and not (stmt_sorted or ret_sorted) and all_sorts and all(depth_key(c) and not any(kw.arg == "reverse" for kw in c.keywords)
+                                                                      for c in all_sorts):
+        raise AnalysisError("_find_relevant_tomls: a depth-ordered sort is there but what it sorts could not be tied to the filtered list"
+                            " (shape not enumerated)")
     if not filt:
         r.violation(q, "ancestor filter", "only REUSE.toml files in ancestor directories of the path are relevant", repo.loc(fn))
     if not (stmt_sorted or ret_sorted):
@@ -416,6 +437,9 @@ def check_relevant_items(ck: Check, repo: Repo, r) -> None:
                     " itself) cutting it here removes REUSE.toml files for every later file of the directory: their annotations no"
                     " longer apply although their globs match", repo.loc(cut[0]))
     r.instance("relevant-items", {"ok": ok, **detail})
+    if not ok and not cut and len(loops1) != 1 and "find_annotations_item(" in s1 and "_find_relevant_tomls(" in s1:
+        raise AnalysisError("_find_relevant_tomls_and_items: the items are collected in a shape other than the one loop over the relevant"
+                            " REUSE.toml files that this rule enumerates (a comprehension / generator pipeline): not decided")
     if not ok and not cut:
         r.violation(q1, "item collection", "every relevant REUSE.toml contributes its matching item, in depth order", repo.loc(f1))
 
@@ -505,7 +529,7 @@ def rule_nesting(ck: Check, repo: Repo) -> None:
     # another algorithm for the same table - not decided
     flags = {t.id for st in ast.walk(clean) if isinstance(st, ast.Assign) and isinstance(st.value, ast.Constant) and st.value.value is True
              for t in st.targets if isinstance(t, ast.Name)}
-    if len(flags) != 2 or any(isinstance(n, ast.Break) for n in ast.walk(clean)):
+    if len(flags) != 2:
         raise AnalysisError("NestedReuseTOML.reuse_info_of: the closest clean-up is not the two-flag loop this rule models (shape not enumerated)")
     it = ast.unparse(clean.iter)
     if it != "reversed(result[PrecedenceType.CLOSEST])":
